@@ -291,14 +291,31 @@ MALFORMED_GRAPHS = [
     (["list", [["intkeydict"]]], "error"),
     (["dict", [["__module__", ["i", 1]]]], "error"),
     (["dict", [["x", ["dict", [["__name__", ["s", "q"]]]]]]], "error"),
+    (["list", [["poscons_private", "a", "vol"]]], "private"),
     (["dict", [["__value__", ["list", []]]]], "reserved"),
     (["dict", [["__dtype__", ["s", "jax.numpy.float32"]]]], "reserved"),
 ]
 
 
+# fixed corpus: every leaf / container kind at least once in every run
+CORPUS_GRAPHS = [
+    ["list", [["nparr", "int32", [1, -2, 3]], ["nparr", "int64", [[2 ** 40, 0], [1, -1]]], ["nparr", "bool_", [True, False]],
+              ["nparr", "float32", [0.25, 1.5]], ["nparr", "float64", [[0.1, 2.0]]], ["nparr", "int32", 7], ["nparr", "float64", 0.5],
+              ["nparr", "float64", []], ["jarr", "int32", [4, 5]], ["jarr", "float32", [[0.75]]], ["jarr", "float64", 2.5]]],
+    ["tuple", [["dtype", d] for d in ("float32", "float64", "complex64", "complex128", "float16", "bfloat16", "int8", "int32", "float8_e4m3fn")]],
+    ["dict", [["t", ["tuple", [["i", 1], ["tuple", [["none"], ["b", True], ["b", False]]], ["list", []], ["tuple", []]]]],
+              ["f", ["list", [["f", (0.1).hex()], ["f", (-0.0).hex()], ["f", (1e300).hex()], ["f", (5e-324).hex()], ["i", 0], ["i", -(2 ** 70)]]]],
+              ["s", ["list", [["s", ""], ["s", "dict"], ["s", "__value__"], ["s", "a\"b"], ["s", "jax.numpy.float32"]]]],
+              ["_p", ["i", 1]], ["value", ["dict", []]], ["d", ["dict", [["x", ["dict", [["y", ["none"]]]]]]]]]],
+    ["list", [["wave", (6e-7).hex()], ["material", ["f", (2.5).hex()], (0.0).hex()],
+              ["material", ["tuple", [["f", (2.0).hex()], ["f", (3.0).hex()], ["f", (4.0).hex()]]], (1.5).hex()],
+              ["switch", (1e-15).hex(), 2, [0, 2, 5]], ["switch", (0.0).hex(), 1, None], ["poscons", "a", "vol"]]],
+]
+
+
 def gen_cases(ctx):
     rng = ctx.rng
-    cases = []
+    cases = [{"kind": "graph", "recipe": r} for r in CORPUS_GRAPHS]
     for i in range(ctx.pick(3, 14)):
         cases.append({"kind": "scene", "spec": scene_spec(rng, i), "place": True})
     for i, why in enumerate(["sphere", "dipole", "pec", "realcoord", "dupname"][:ctx.pick(5, 5)]):
@@ -351,6 +368,10 @@ def coq_expr(case, out):
     ps = [f"opt_json_eqb (export_top Qc {plit(g)}) (Some {jlit(out['json'])})"]
     if case.get("malformed") == "reserved":
         ps.append(f"negb (wfb Qc {plit(g)})")
+    elif case.get("malformed") == "private" and "graph_back" in out:
+        # the private key is dropped by the export: the graph is not well-formed, the model still predicts both directions
+        ps.append(f"negb (wfb Qc {plit(g)})")
+        ps.append(f"opt_pyv_eqb (import Qc {jlit(out['json'])}) (Some {plit(out['graph_back'])})")
     elif "graph_back" in out:
         ps.append(f"wfb Qc {plit(g)}")
         ps.append(f"opt_pyv_eqb (import Qc {jlit(out['json'])}) (Some {plit(out['graph_back'])})")
@@ -400,6 +421,8 @@ def predicate(case, out):
         return None if "export_error" in out else ("graph-accepted-" + key_of(case), f"malformed graph exported: {case['recipe']}")
     if bad == "reserved":
         return None        # documented limitation (C31_reserved_key_refuted): exported, not round-tripped
+    if bad == "private":
+        bad = None         # must round-trip up to the dropped private attribute (first_diff ignores "_" keys of dataclasses)
     for k in ("build_error", "export_error", "import_error"):
         if k in out:
             return ("graph-" + k + "-" + key_of(case), f"{out[k]} on {case['recipe']}")
